@@ -1,8 +1,334 @@
 import GB.Base.Proto
+import GB.C03.Spec
+/-
+  C03 driver. Case lines (fields separated by one space, byte strings hex `x…`):
+
+    m <tspec> <comps> <verb>            => ERR | <res> <P|E> <ast> <opcodes> <pool> <verb> <fields>
+        real gwbased.Parse + Compile + runtime.NewPattern + MatchAndEscape on one template
+    u <pru|req> <target>                => err | ok <Path> <RawPath> <EscapedPath>
+        real url.ParseRequestURI / http.ReadRequest on a request target
+    r <table> <method> <req|raw|path> <x> => <found:ti:si:mi:bi|d:params | err:Code | urlerr> <parsed asts ;-separated>
+        real PatternRouter (Watch + UpdateDesc per target, fake pool) + RouteHTTP
+
+  tspec  = `A:`ast (intended AST, rendered to template text by the harness) | `R:`hex (raw template text)
+  ast    = seg{`,`seg}`|`verbhex ; seg = `L`hex | `S` | `D` | `V`hex`:`part{`.`part} ; part = `L`hex | `S` | `D`
+  comps  = hex{`,`hex} | `-` (no components) ; params = k`=`v{`,`k`=`v} sorted by hex key | `-`
+  table  = target{`;`target} ; target = svc{`+`svc} ; svc = method{`!`method} ;
+  method = rpcNameHex{`~`httpMethodHex`@`tspec}
+-/
 namespace GB.C03
 open GB GB.Proto
 
-/-- stub: replaced when the C03 slice is built -/
-def handle : Handler := fun _ _ => "BAD c03 unimplemented"
+def parsePart (s : String) : Option VSeg :=
+  if s = "S" then some .star
+  else if s = "D" then some .deep
+  else match s.toList with
+    | 'L' :: rest => (parseHex (String.ofList rest)).map .lit
+    | _ => none
+
+def parseSeg (s : String) : Option Seg :=
+  match s.toList with
+  | 'V' :: rest =>
+    match (String.ofList rest).splitOn ":" with
+    | [p, parts] =>
+      match parseHex p, (parts.splitOn ".").mapM parsePart with
+      | some path, some ps => some (.var path ps)
+      | _, _ => none
+    | _ => none
+  | _ => (parsePart s).map .plain
+
+def parseAst (s : String) : Option Tmpl :=
+  match s.splitOn "|" with
+  | [segs, verb] =>
+    match (if segs = "" then some [] else (segs.splitOn ",").mapM parseSeg), parseHex verb with
+    | some ss, some v => some ⟨ss, v⟩
+    | _, _ => none
+  | _ => none
+
+def showPart : VSeg → String
+  | .star => "S"
+  | .deep => "D"
+  | .lit l => "L" ++ toHex l
+
+def showSeg : Seg → String
+  | .plain p => showPart p
+  | .var x ps => "V" ++ toHex x ++ ":" ++ ".".intercalate (ps.map showPart)
+
+def showAst (t : Tmpl) : String := ",".intercalate (t.segs.map showSeg) ++ "|" ++ toHex t.verb
+
+def parseHexList (s : String) : Option (List Bytes) :=
+  if s = "-" then some [] else (s.splitOn ",").mapM parseHex
+
+def showHexList (l : List Bytes) : String :=
+  if l.isEmpty then "-" else ",".intercalate (l.map toHex)
+
+def showNatList (l : List Nat) : String :=
+  if l.isEmpty then "-" else ",".intercalate (l.map toString)
+
+/-- the Go map built from the captures: last value per key; shown sorted by hex key -/
+def canonParams (b : Captures) : String :=
+  let dedup : List (String × String) := b.foldl (fun acc (k, v) =>
+    (acc.filter (fun e => e.1 ≠ toHex k)) ++ [(toHex k, toHex v)]) []
+  let sorted := dedup.toArray.qsort (fun a b => a.1 < b.1) |>.toList
+  if sorted.isEmpty then "-" else ",".intercalate (sorted.map fun (k, v) => k ++ "=" ++ v)
+
+def showMatch : MatchRes Captures → String
+  | .ok b => "ok:" ++ canonParams b
+  | .notMatch => "nm"
+  | .malformed => "mal"
+  | .fault => "fault"
+
+/-- executable forms of the `WF` conditions of Spec.lean -/
+def wellEscapedB (s : Bytes) : Bool := (decodeOnce false s).isSome
+
+def wfB (t : Tmpl) : Bool :=
+  decide (deepCount t.segs ≤ 1) &&
+  (atomsOf t.segs).all (fun p => match p with | .lit l => wellEscapedB (litText l) | _ => true) &&
+  wellEscapedB t.verb
+
+/-- tspec → (intended AST if given) -/
+def parseTSpec (s : String) : Option (Option Tmpl) :=
+  match s.toList with
+  | 'A' :: ':' :: rest => (parseAst (String.ofList rest)).map some
+  | 'R' :: ':' :: _ => some none
+  | _ => none
+
+def parseParsed (s : String) : Option (Option Tmpl) :=
+  if s = "ERR" then some none else (parseAst s).map some
+
+/-! ### m — one template against one component list -/
+
+def handleMatch (tspec comps verb : String) (out : List String) : String :=
+  match parseTSpec tspec, parseHexList comps, parseHex verb with
+  | some intended, some cs, some vb =>
+    match out with
+    | ["ERR"] =>
+      match intended with
+      | some _ => "DIFF model=parsed (the real parser rejected a grammar-generated template)"
+      | none => "OK b=m-parse-error"
+    | [resS, patS, astS, opsS, poolS, verbS, fieldsS] =>
+      match parseAst astS with
+      | none => "BAD ast"
+      | some t =>
+        let tp := compile t
+        let compS := s!"{showNatList tp.opcodes} {showHexList tp.pool} {toHex tp.verb} {showHexList tp.fields}"
+        let pat := newPattern 1 tp.opcodes tp.pool tp.verb
+        let modelPat := if pat.isSome then "P" else "E"
+        let modelRes := match pat with
+          | some p => showMatch (matchAndEscape p cs vb)
+          | none => "-"
+        let absRes := if deepCount t.segs ≤ 1 then showMatch (matchTmpl t cs vb) else "-"
+        let model := s!"{compS} {modelPat} {modelRes}"
+        let impl := s!"{opsS} {poolS} {verbS} {fieldsS} {patS} {resS}"
+        -- spec judgement: for a well-formed template the match result is fixed by `Matches`
+        -- (C03_matcher: matchTmpl decides it), whatever the compiled form looks like
+        if intended.isSome ∧ intended ≠ some t then s!"DIFF model=parse:{showAst t}"
+        else if wfB t ∧ absRes ≠ resS then s!"VIOL match impl={resS} spec={absRes}"
+        else if absRes ≠ modelRes then s!"DIFF model-internal compiled={modelRes} ast={absRes}"
+        else if impl ≠ model then s!"DIFF model={model}"
+        else
+          let br := if modelRes.startsWith "ok:-" then "m-ok-nocapture" else if modelRes.startsWith "ok:" then "m-ok-capture"
+            else if modelRes = "nm" then "m-notmatch" else if modelRes = "mal" then "m-malformed" else "m-invalid-pattern"
+          let nt := if modelRes = "nm" ∨ modelRes = "-" then "" else " nt"
+          s!"OK{nt} b={br}"
+    | _ => "BAD m output"
+  | _, _, _ => "BAD m input"
+
+/-! ### u — request-target parsing -/
+
+def handleUrl (kind target : String) (out : List String) : String :=
+  match parseHex target with
+  | none => "BAD u input"
+  | some raw =>
+    -- http.ReadRequest cuts the request line at spaces before url.ParseRequestURI sees the target
+    let dom := if kind = "req" ∧ raw.contains 32 then some none else parseRequestURI raw
+    match dom with
+    | none => "OK b=u-unmodelled"
+    | some m =>
+      let model := match m with
+        | none => "err"
+        | some u => s!"ok {toHex u.path} {toHex u.rawPath} {toHex (escapedPath u)}"
+      let impl := " ".intercalate out
+      -- spec: the path RouteHTTP routes on is the request target's path text, untouched
+      let specOk : Bool := match m, out with
+        | some _, [_, _, rp, ep] => (if rp ≠ "x" then rp else ep) == toHex (beforeQuery raw)
+        | _, _ => true
+      if ¬ specOk then s!"VIOL url path choice differs from the target's path text {toHex (beforeQuery raw)}"
+      else if impl ≠ model then s!"DIFF model={model}"
+      else match m with
+        | none => "OK b=u-error"
+        | some u => if u.rawPath = [] then "OK nt b=u-path-only" else "OK nt b=u-rawpath"
+
+/-! ### r — routing through the real PatternRouter -/
+
+structure BindingIn where
+  httpMethod : Bytes
+  intended : Option Tmpl
+
+structure MethodIn where
+  rpcName : Bytes
+  bindings : List BindingIn
+
+def parseBindingIn (s : String) : Option BindingIn :=
+  match s.splitOn "@" with
+  | [m, ts] =>
+    match parseHex m, parseTSpec ts with
+    | some hm, some it => some ⟨hm, it⟩
+    | _, _ => none
+  | _ => none
+
+def parseMethodIn (s : String) : Option MethodIn :=
+  match s.splitOn "~" with
+  | [] => none
+  | name :: bs =>
+    match parseHex name, bs.mapM parseBindingIn with
+    | some n, some l => some ⟨n, l⟩
+    | _, _ => none
+
+def parseTableIn (s : String) : Option (List (List (List MethodIn))) :=
+  (s.splitOn ";").mapM fun t => (t.splitOn "+").mapM fun sv => (sv.splitOn "!").mapM parseMethodIn
+
+/-- pair the input table with the parsed templates reported by the harness (per method: default, then bindings).
+    Returns the model table (parsed ASTs) and the spec table (intended AST where given). -/
+def zipMethods : List MethodIn → List (Option Tmpl) → Option (List MethodD × List MethodD × List (Option Tmpl))
+  | [], ps => some ([], [], ps)
+  | m :: ms, ps =>
+    match ps with
+    | [] => none
+    | d :: ps =>
+      let n := m.bindings.length
+      if ps.length < n then none
+      else
+        let mine := ps.take n
+        let bM := (m.bindings.zip mine).map fun (b, p) => (⟨b.httpMethod, p⟩ : BindingD)
+        let bS := (m.bindings.zip mine).map fun (b, p) => (⟨b.httpMethod, match b.intended with | some t => some t | none => p⟩ : BindingD)
+        match zipMethods ms (ps.drop n) with
+        | none => none
+        | some (rm, rs, rest) => some (⟨d, bM⟩ :: rm, ⟨d, bS⟩ :: rs, rest)
+
+def zipServices : List (List MethodIn) → List (Option Tmpl) → Option (List ServiceD × List ServiceD × List (Option Tmpl))
+  | [], ps => some ([], [], ps)
+  | s :: ss, ps =>
+    match zipMethods s ps with
+    | none => none
+    | some (m1, m2, rest) =>
+      match zipServices ss rest with
+      | none => none
+      | some (r1, r2, rest') => some (⟨m1⟩ :: r1, ⟨m2⟩ :: r2, rest')
+
+def zipTargets : List (List (List MethodIn)) → List (Option Tmpl) → Option (List TargetD × List TargetD × List (Option Tmpl))
+  | [], ps => some ([], [], ps)
+  | t :: ts, ps =>
+    match zipServices t ps with
+    | none => none
+    | some (s1, s2, rest) =>
+      match zipTargets ts rest with
+      | none => none
+      | some (r1, r2, rest') => some (⟨s1⟩ :: r1, ⟨s2⟩ :: r2, rest')
+
+def showId (i : RouteId) : String :=
+  s!"{i.target}:{i.service}:{i.method}:" ++ (match i.binding with | some b => toString b | none => "d")
+
+def showRoute : RouteResult RouteId → String
+  | .found i b => s!"found:{showId i}:{canonParams b}"
+  | .error .notFound => "err:NotFound"
+  | .error .invalidArgument => "err:InvalidArgument"
+
+/-- all (id, method, template) of the spec table, templates `NewPattern` would reject left out -/
+def specEntries (ts : List TargetD) : List (RouteId × Bytes × Tmpl) := buildTable mkEntry ts
+
+/-- executable `PathMatches` (C03_pathMatch: `pathMatch t segs = .ok b ↔ PathMatches t segs b` for well-formed `t`) -/
+def pathMatch (t : Tmpl) (segs : List Bytes) : MatchRes Captures :=
+  match segs.getLast? with
+  | none => .notMatch
+  | some last => stepRoute segs last ({ id := (), httpMethod := [], verb := t.verb, run := matchTmpl t } : Route Unit)
+
+def isOk {α} : MatchRes α → Bool
+  | .ok _ => true
+  | _ => false
+
+/-- does the implementation's answer satisfy the property text? returns a reason when it does not -/
+def specJudge (entries : List (RouteId × Bytes × Tmpl)) (method path : Bytes) (res : String) : Option String :=
+  let segs? : Option (List Bytes) := match path with
+    | 47 :: p => some (splitSlash p)
+    | _ => none
+  let mine := entries.filter fun e => e.2.1 == method
+  let matching : List (RouteId × Captures) := match segs? with
+    | none => []
+    | some segs => mine.filterMap fun (i, _, t) => match pathMatch t segs with
+      | .ok b => some (i, b)
+      | _ => none
+  if res.startsWith "found:" then
+    match matching.find? (fun (i, b) => s!"found:{showId i}:{canonParams b}" = res) with
+    | none =>
+      if matching.isEmpty then some "routed although no binding of this HTTP method matches the path"
+      else some s!"routed to a binding that does not match, or with wrong captures; matching={matching.map (fun (i, b) => showId i ++ ":" ++ canonParams b)}"
+    | some (i, _) =>
+      -- the first matching binding of the same target must win
+      match matching.find? (fun (j, _) => j.target = i.target) with
+      | some (j, _) => if j = i then none else some s!"binding {showId j} of the same target matches and precedes {showId i}"
+      | none => none
+  else if res = "err:NotFound" then
+    match matching with
+    | [] => none
+    | (i, _) :: _ => some s!"NotFound although binding {showId i} matches"
+  else if res = "err:InvalidArgument" then
+    match matching with
+    | (i, _) :: _ => some s!"InvalidArgument although binding {showId i} matches"
+    | [] => match segs? with
+      | none => none
+      | some segs => if segs.all wellEscapedB then some "InvalidArgument for a well-formed path" else none
+  else some s!"unexpected result {res}"
+
+def handleRoute (table method kind x : String) (out : List String) : String :=
+  match parseTableIn table, parseHex method, parseHex x, out with
+  | some tin, some meth, some xb, [res, parsedS] =>
+    match (parsedS.splitOn ";").mapM parseParsed with
+    | none => "BAD parsed list"
+    | some parsed =>
+      match zipTargets tin parsed with
+      | none => "BAD parsed list length"
+      | some (modelT, specT, _) =>
+        -- the URL as the model sees it
+        let url? : Option (Option Url) :=
+          if kind = "req" then (if xb.contains 32 then some none else parseRequestURI xb)
+          else if kind = "raw" then some (some ⟨[], xb⟩)
+          else if kind = "path" then some (some ⟨xb, []⟩)
+          else none
+        match url? with
+        | none => "OK b=r-unmodelled-target"
+        | some none => if res = "urlerr" then "OK b=r-urlerr" else s!"DIFF model=urlerr"
+        | some (some u) =>
+          let tblC := buildTable mkRouteC modelT
+          let tblA := buildTable mkRouteA modelT
+          let mC := showRoute (routeHTTP tblC meth u)
+          let mA := showRoute (routeHTTP tblA meth u)
+          let entries := specEntries specT
+          let allWf := entries.all fun e => wfB e.2.2
+          -- the path the request carries: for `req` the target's path text, otherwise the chosen path
+          let reqPath := if kind = "req" then beforeQuery xb else pathChoice u
+          let parseOk := (specEntries modelT).map (fun e => (e.1, e.2.2)) == entries.map (fun e => (e.1, e.2.2))
+          match (if allWf then specJudge entries meth reqPath res else none) with
+          | some why => s!"VIOL route {why}"
+          | none =>
+            if ¬ parseOk then "DIFF model=parse (a grammar-generated template was parsed to a different AST)"
+            else if mC ≠ mA then s!"DIFF model-internal compiled={mC} ast={mA}"
+            else if res ≠ mC then s!"DIFF model={mC}"
+            else
+              let br := if ¬ allWf then "r-nonwf-table"
+                else if res.startsWith "found:" then
+                  (if (res.splitOn ":").getD 4 "" = "d" then "r-found-default"
+                   else if res.endsWith ":-" then "r-found-nocapture" else "r-found-capture")
+                else if res = "err:NotFound" then "r-notfound" else "r-invalid"
+              let nt := if res.startsWith "found:" ∨ res = "err:InvalidArgument" ∨
+                  (entries.any fun e => e.2.1 == meth) then " nt" else ""
+              s!"OK{nt} b={br}"
+  | _, _, _, _ => "BAD r line"
+
+def handle : Handler
+  | ["m", tspec, comps, verb], out => handleMatch tspec comps verb out
+  | ["u", kind, target], out => handleUrl kind target out
+  | ["r", table, method, kind, x], out => handleRoute table method kind x out
+  | _, _ => "BAD c03 line"
 
 end GB.C03
